@@ -165,6 +165,7 @@ func main() {
 	var l []*explore.Scenario
 	noAtomics := uint32(1<<sched.KLock | 1<<sched.KRLock | 1<<sched.KEtcd | 1<<sched.KUser | 1<<sched.KWait | 1<<sched.KStart)
 	ads := append(tsoh.Admins(), tsoh.Handover(0), tsoh.Handover(-time.Hour), tsoh.Handover(time.Hour))
+	ads = append(ads, tsoh.Handover2(-time.Hour))
 	ads = append(ads, tsoh.Seq("handover-after-set+10s", tsoh.Admins()[6], tsoh.Handover(0)))
 	for _, ad := range ads {
 		lead := strings.HasPrefix(ad.Name, "reset") || strings.HasPrefix(ad.Name, "handover")
